@@ -84,6 +84,9 @@ pub struct Interp {
     /// compound / field assignment: read the target side before (true) or after (false) the value
     pub target_first: bool,
     pub unstable_text: bool,
+    /// evaluate global initialisers strictly in source order (C11 enumerates the orders itself)
+    pub source_order: bool,
+    fell_off_end: bool,
     pending: Option<Flow>,
 }
 
@@ -189,6 +192,8 @@ impl Interp {
             max_depth: 60,
             target_first: true,
             unstable_text: false,
+            source_order: false,
+            fell_off_end: false,
             pending: None,
         }
     }
@@ -214,7 +219,7 @@ impl Interp {
             V::Str(s) => s.to_string(),
             V::Bool(b) => format!("{}", b),
             V::Nil => "nil".into(),
-            V::Undef => return Err(End::TagError("use of the value of a block that has none".into())),
+            V::Undef => return Err(End::TagError("use of the value of a block (or function) that has none".into())),
             V::Tuple(xs) => {
                 let mut parts = Vec::new();
                 for x in xs.iter() {
@@ -595,7 +600,7 @@ impl Interp {
 
     fn binop(&mut self, op: BinOp, x: &V, y: &V) -> R<V> {
         if matches!(x, V::Undef) || matches!(y, V::Undef) {
-            return Err(End::TagError("use of the value of a block that has none".into()));
+            return Err(End::TagError("use of the value of a block (or function) that has none".into()));
         }
         Ok(match op {
             BinOp::Add | BinOp::Sub | BinOp::Mul | BinOp::Div => self.arith(op, x, y)?,
@@ -630,14 +635,21 @@ impl Interp {
                 let mut env = c.env.clone();
                 for ((n, _), v) in c.f.params.iter().zip(args.into_iter()) {
                     if matches!(v, V::Undef) {
-                        return Err(End::TagError("use of the value of a block that has none".into()));
+                        return Err(End::TagError("use of the value of a block (or function) that has none".into()));
                     }
                     env = bind(&env, n, Some(v)).0;
                 }
                 self.depth += 1;
                 let r = self.fn_body(&c.f.body, &env);
                 self.depth -= 1;
-                r
+                // a function declared to return a value that runs off its end has no value to give
+                match (&r, &c.f.ret) {
+                    (Ok(V::Nil), RetAnn::Ty(t)) if *t != Ty::Void && self.fell_off_end => {
+                        self.fell_off_end = false;
+                        Ok(V::Undef)
+                    }
+                    _ => r,
+                }
             }
             _ => Err(End::TagError(format!("call of {}", tag(f)))),
         }
@@ -656,15 +668,20 @@ impl Interp {
                         },
                         r => r?,
                     };
+                    self.fell_off_end = matches!(v, V::Undef);
                     return Ok(if matches!(v, V::Undef) { V::Nil } else { v });
                 }
             }
             match self.exec(s, &mut env)? {
                 Flow::Next => {}
-                Flow::Ret(v) => return Ok(v),
+                Flow::Ret(v) => {
+                    self.fell_off_end = false;
+                    return Ok(v);
+                }
                 Flow::Break | Flow::Continue => return Err(End::TagError("break/continue outside a loop of this function".into())),
             }
         }
+        self.fell_off_end = true;
         Ok(V::Nil)
     }
 
@@ -805,7 +822,7 @@ impl Interp {
                     }
                 };
                 if matches!(new, V::Undef) {
-                    return Err(End::TagError("use of the value of a block that has none".into()));
+                    return Err(End::TagError("use of the value of a block (or function) that has none".into()));
                 }
                 if cell.borrow().is_none() {
                     return Err(End::ScopeError(format!("{:?} assigned before it is initialised", n)));
@@ -836,7 +853,7 @@ impl Interp {
                     (c, v)
                 };
                 if matches!(v, V::Undef) {
-                    return Err(End::TagError("use of the value of a block that has none".into()));
+                    return Err(End::TagError("use of the value of a block (or function) that has none".into()));
                 }
                 match &container {
                     V::Blob(b) => {
@@ -869,7 +886,11 @@ impl Interp {
                 _ => {}
             }
         }
-        for t in &p.tops {
+        // globals are initialised in an order consistent with their dependencies (top-level order is
+        // irrelevant in Sylt): a static topological order over the names an initialiser mentions,
+        // following global functions it mentions; ties and cycles fall back to source order
+        let order = if self.source_order { (0..p.tops.len()).collect() } else { init_order(p) };
+        for t in order.iter().map(|i| &p.tops[*i]) {
             match t {
                 Top::External { name, .. } => {
                     let b: &'static str = match name.as_str() {
@@ -907,6 +928,13 @@ impl Interp {
             Err(e) => e,
         }
     }
+}
+
+pub fn run_in_source_order(p: &Program, budget: u64) -> Trace {
+    let mut it = Interp::new(budget);
+    it.source_order = true;
+    let end = it.run_program(p);
+    Trace { out: it.out, end, unstable_text: it.unstable_text }
 }
 
 pub fn run(p: &Program, budget: u64, target_first: bool) -> Trace {
@@ -958,4 +986,164 @@ fn has_target_sensitive_assign(p: &Program) -> bool {
         Top::Def { value, .. } => in_expr(value),
         _ => false,
     })
+}
+
+fn mentioned(e: &Expr, out: &mut Vec<String>) {
+    match e {
+        Expr::Var(n) => {
+            if !out.contains(n) {
+                out.push(n.clone());
+            }
+        }
+        Expr::NsVar(_, n) => {
+            if !out.contains(n) {
+                out.push(n.clone());
+            }
+        }
+        Expr::Bin(_, a, b) => {
+            mentioned(a, out);
+            mentioned(b, out);
+        }
+        Expr::Un(_, a) | Expr::Paren(a) | Expr::Index(a, _) | Expr::Field(a, _) => mentioned(a, out),
+        Expr::Call(c, args, _) => {
+            mentioned(c, out);
+            args.iter().for_each(|a| mentioned(a, out));
+        }
+        Expr::Tuple(xs) | Expr::List(xs) => xs.iter().for_each(|x| mentioned(x, out)),
+        Expr::Blob(_, fs) => fs.iter().for_each(|(_, x)| mentioned(x, out)),
+        Expr::Variant(_, _, Some(x)) => mentioned(x, out),
+        Expr::If(bs, el) => {
+            for (c, b) in bs {
+                mentioned(c, out);
+                mentioned_block(b, out);
+            }
+            if let Some(b) = el {
+                mentioned_block(b, out);
+            }
+        }
+        Expr::Case(sc, arms, el) => {
+            mentioned(sc, out);
+            for a in arms {
+                mentioned_block(&a.body, out);
+            }
+            if let Some(b) = el {
+                mentioned_block(b, out);
+            }
+        }
+        Expr::Fn(f) => mentioned_block(&f.body, out),
+        _ => {}
+    }
+}
+
+fn mentioned_block(b: &[Stmt], out: &mut Vec<String>) {
+    for s in b {
+        match s {
+            Stmt::Def { value, .. } => mentioned(value, out),
+            Stmt::Assign { target, value, .. } => {
+                mentioned(target, out);
+                mentioned(value, out);
+            }
+            Stmt::Expr(e) | Stmt::Ret(Some(e)) => mentioned(e, out),
+            Stmt::Loop(c, b) => {
+                if let Some(c) = c {
+                    mentioned(c, out);
+                }
+                mentioned_block(b, out);
+            }
+            Stmt::Block(b) => mentioned_block(b, out),
+            _ => {}
+        }
+    }
+}
+
+/// indices of the tops in initialisation order
+fn init_order(p: &Program) -> Vec<usize> {
+    let name_of = |t: &Top| -> Option<String> {
+        match t {
+            Top::Def { name, .. } | Top::External { name, .. } => Some(name.clone()),
+            _ => None,
+        }
+    };
+    let index_of = |n: &str| p.tops.iter().position(|t| name_of(t).as_deref() == Some(n));
+    // names mentioned by each global (a function literal mentions what its body mentions)
+    let deps: Vec<Vec<usize>> = p
+        .tops
+        .iter()
+        .map(|t| match t {
+            Top::Def { value, .. } => {
+                let mut names = Vec::new();
+                mentioned(value, &mut names);
+                names.iter().filter_map(|n| index_of(n)).collect()
+            }
+            _ => Vec::new(),
+        })
+        .collect();
+    let is_fn = |i: usize| matches!(&p.tops[i], Top::Def { value: Expr::Fn(_), .. });
+    let mut order = Vec::new();
+    let mut state = vec![0u8; p.tops.len()]; // 0 new, 1 visiting, 2 done
+    fn visit(i: usize, deps: &[Vec<usize>], is_fn: &dyn Fn(usize) -> bool, state: &mut Vec<u8>, order: &mut Vec<usize>) {
+        if state[i] != 0 {
+            return;
+        }
+        state[i] = 1;
+        for d in &deps[i] {
+            // a function literal is "initialised" by creating the closure: what its body mentions is
+            // needed only by whoever calls it, so the edge is followed through, but a function never
+            // waits for its own dependants
+            if state[*d] == 0 {
+                visit(*d, deps, is_fn, state, order);
+            }
+        }
+        state[i] = 2;
+        order.push(i);
+    }
+    // externals and function literals first (creating a closure evaluates nothing)
+    for i in 0..p.tops.len() {
+        if matches!(&p.tops[i], Top::External { .. }) || is_fn(i) {
+            state[i] = 2;
+            order.push(i);
+        }
+    }
+    for i in 0..p.tops.len() {
+        if matches!(&p.tops[i], Top::Def { .. }) && state[i] == 0 {
+            // dependencies through functions: expand transitively
+            visit_value(i, &deps, &is_fn, &mut state, &mut order);
+        }
+    }
+    fn visit_value(i: usize, deps: &[Vec<usize>], is_fn: &dyn Fn(usize) -> bool, state: &mut Vec<u8>, order: &mut Vec<usize>) {
+        if state[i] != 0 {
+            return;
+        }
+        state[i] = 1;
+        // all value globals reachable through mentioned names (following functions)
+        let mut seen = vec![false; deps.len()];
+        let mut stack: Vec<usize> = deps[i].clone();
+        let mut needed = Vec::new();
+        while let Some(d) = stack.pop() {
+            if seen[d] {
+                continue;
+            }
+            seen[d] = true;
+            if is_fn(d) {
+                stack.extend(deps[d].iter().cloned());
+            } else if d != i {
+                needed.push(d);
+            }
+        }
+        needed.sort();
+        for d in needed {
+            if state[d] == 0 {
+                visit_value(d, deps, is_fn, state, order);
+            }
+        }
+        state[i] = 2;
+        order.push(i);
+    }
+    let _ = visit;
+    for i in 0..p.tops.len() {
+        if state[i] == 0 {
+            order.push(i);
+        }
+    }
+    order
 }
